@@ -255,6 +255,7 @@ type Scenario struct {
 	AutoIrr              bool
 	AutoHarvest          bool
 	TillCollision        bool     `json:",omitempty"` // rewritten around the observed harvest: postponed tillage meets the next one
+	RotationEndsInside   bool     `json:",omitempty"` // no rotation entries behind the last crop sown inside the period
 	PermanentAfterAnnual bool     `json:",omitempty"` // a block of grass / alfalfa cuts follows annual crops
 	Automan              []string // lines of automan.txt (without header)
 	AutoRows             map[string]*AutoRow
@@ -727,6 +728,29 @@ func genWithProfile(prop string, seed uint64, idx int, r *Rng, p Profile) *Scena
 	genEvents(sc, r, p)
 	if r.Bool(p.AutoProb) {
 		genAuto(sc, r)
+	}
+	// a fifth of the rotations end with the last crop that is sown inside the period (no further entries behind it): the crop
+	// harvested last is then the last line of the rotation file
+	// (not for C10: behind the last entry the model assumes a phantom crop sown a year after the last sowing, and a tillage
+	// dated later than that is postponed for ever under automatic harvest - a schedule beyond the end of the rotation is not
+	// what C10 quantifies over)
+	if rt := NewRng(mix(mix(seed, uint64(idx)), 1212)); rt.Bool(0.2) && prop != "C10" {
+		last := len(sc.Rotation) - 1
+		for last > 1 {
+			e := sc.Rotation[last]
+			start := e.Sow
+			if e.WinOpen.Y != 0 && e.WinOpen.Zeit() < start.Zeit() {
+				start = e.WinOpen
+			}
+			if start.Zeit() <= sc.End.Zeit() {
+				break
+			}
+			last--
+		}
+		if last >= 1 && last < len(sc.Rotation)-1 {
+			sc.Rotation = sc.Rotation[:last+1]
+			sc.RotationEndsInside = true
+		}
 	}
 
 	// ---------------- measurement (initial values) ----------------
